@@ -33,6 +33,11 @@ DOCS: dict[str, tuple[str, Any]] = {
     "S4": ("services:\n  s1:\n    component:\n      q: 5\n  s3:\n    component:\n      type: T3S\n",
            {"services": {"s1": {"component": {"q": 5}}, "s3": {"component": {"type": "T3S"}}}}),
     "S7": ("services:\n  - a\n  - b\n", {"services": ["a", "b"]}),
+    # runner options (backend, backend_options) given by the selected service's own section override the top-level ones
+    "S9": ("services:\n  s1:\n    component:\n      type: T9\n    backend: trio\n    backend_options:\n      debug: true\n  s2:\n    component:\n      type: T92\n"
+           "backend: asyncio\nbackend_options:\n  debug: false\n  extra: 1\n",
+           {"services": {"s1": {"component": {"type": "T9"}, "backend": "trio", "backend_options": {"debug": True}}, "s2": {"component": {"type": "T92"}}},
+            "backend": "asyncio", "backend_options": {"debug": False, "extra": 1}}),
     "S8": ("services:\n  s1:\n    max_threads: 1\n", {"services": {"s1": {"max_threads": 1}}}),
     # one mapping shared by two services through a YAML anchor / alias, and a later document overriding it for one of them only
     "ANCH": ("services:\n  web:\n    component:\n      type: TW\n      db: &dbdefaults\n        url: sqlite\n        pool:\n          size: 5\n"
@@ -45,7 +50,7 @@ DOCS: dict[str, tuple[str, Any]] = {
             {"max_threads": 3, "logging": {"version": 1, "root": {"handlers": ["console"]}}, "backend": "trio", "backend_options": {"debug": True}}),
 }
 COMPONENT_DOCS = ["D1", "D2", "D3", "D4", "D9", "D10"]
-SERVICE_DOCS = ["S1", "S2", "S3", "S4", "S7", "S8", "TOP"]
+SERVICE_DOCS = ["S1", "S2", "S3", "S4", "S7", "S8", "TOP", "S9"]
 ANCHOR_CASES = [(["ANCH", "ANCH2"], svc) for svc in ("web", "worker")] + [(["ANCH"], "worker"), (["ANCH2", "ANCH"], "web")]
 # --set overrides that interact: the same key twice with an override of its parent in between, a child after its parent ...
 SET_TRIPLES = [
